@@ -127,8 +127,8 @@ def materialise(d, lib):
             keep = []
             for n in nodes:
                 dcl = n.get("decl", "")
-                if any(w in dcl for w in ("dup()", "fresh(int v)")):
-                    continue
+                if any(w in dcl for w in ("dup()", "fresh(int v)")) or dcl == "Color tint":
+                    continue        # (an enum-typed member: recorded finding C05, built on its own in c05.PYENUM)
                 if "declarations" in n:
                     n = dict(n, declarations=prune_py(n["declarations"]))
                 keep.append(n)
